@@ -22,72 +22,99 @@ Ltac boolZ :=
   end.
 
 (* --------------------------------------------------------------- the codec spec *)
-(* ser writes bs at any position and advances by |bs|; des reads a back from any buffer
-   that contains bs at that offset *)
-Definition rt_ok {A} (ser : Z -> res W) (des : list Z -> Z -> dres A) (a : A) : Prop :=
+(* rt_ok B m ser des a: at any writer position, ser appends some bytes bs and advances by |bs|,
+   |bs| >= m, and -- if |bs| <= B -- des reads a back from any buffer that contains bs at the
+   corresponding offset (reader origin c_org c, writer position = offset - origin), as long as
+   bs lies within the effective buffer length c_lim c *)
+Definition rt_ok {A} (B m : Z) (ser : Z -> res W) (des : list Z -> rctx -> Z -> dres A) (a : A) : Prop :=
   forall pos, 0 <= pos ->
-  exists bs, ser pos = Ok (bs, pos + blen bs) /\
-    forall pre post, blen pre = pos -> des (pre ++ bs ++ post) pos = DOk a (pos + blen bs).
+  exists bs, ser pos = Ok (bs, pos + blen bs) /\ m <= blen bs /\
+    (blen bs <= B ->
+     forall pre post c, blen pre = c_org c + pos -> c_org c + pos + blen bs <= c_lim c ->
+       des (pre ++ bs ++ post) c (c_org c + pos) = DOk a (c_org c + pos + blen bs)).
 
 Lemma gtb_false : forall a b, a <= b -> (a >? b) = false.
 Proof. intros. rewrite Z.gtb_ltb. apply Z.ltb_ge. lia. Qed.
 
-Lemma read_mid : forall pre bs post,
-  read_bytes (pre ++ bs ++ post) (blen pre) (blen bs) = DOk bs (blen pre + blen bs).
+Lemma read_mid : forall pre bs post c, blen pre + blen bs <= c_lim c ->
+  read_bytes (pre ++ bs ++ post) c (blen pre) (blen bs) = DOk bs (blen pre + blen bs).
 Proof.
-  intros. unfold read_bytes. rewrite gtb_false.
-  2:{ rewrite !blen_app. pose proof (blen_nonneg post). lia. }
+  intros. unfold read_bytes. rewrite gtb_false by assumption.
   rewrite !to_nat_blen. f_equal.
   rewrite skipn_app, skipn_all, Nat.sub_diag. cbn [skipn app].
   rewrite firstn_app, firstn_all, Nat.sub_diag. cbn [firstn]. now rewrite app_nil_r.
 Qed.
 
-Lemma seek_mid : forall pre bs post n, 0 <= n <= blen bs ->
-  seek (pre ++ bs ++ post) (blen pre) n = DOk tt (blen pre + n).
-Proof.
-  intros. unfold seek. rewrite gtb_false; [reflexivity|].
-  rewrite !blen_app. pose proof (blen_nonneg post). lia.
-Qed.
+Lemma seek_ok : forall c p n, p + n <= c_lim c -> seek c p n = DOk tt (p + n).
+Proof. intros. unfold seek. now rewrite gtb_false. Qed.
 
-Lemma rt_bind : forall {A B} f g (df : list Z -> Z -> dres A) (dg : A -> list Z -> Z -> dres B) a b,
-  rt_ok f df a -> rt_ok g (dg a) b ->
-  rt_ok (seq2 f g) (fun buf pos => dbind (df buf pos) (fun x p => dg x buf p)) b.
+Lemma rt_bind : forall {A C} B m1 m2 f g (df : list Z -> rctx -> Z -> dres A)
+    (dg : A -> list Z -> rctx -> Z -> dres C) a b,
+  rt_ok B m1 f df a -> rt_ok B m2 g (dg a) b ->
+  rt_ok B (m1 + m2) (seq2 f g) (fun buf c pos => dbind (df buf c pos) (fun x p => dg x buf c p)) b.
 Proof.
-  intros A B f g df dg a b Hf Hg pos Hpos.
-  destruct (Hf pos Hpos) as [b1 [E1 D1]].
+  intros A C B m1 m2 f g df dg a b Hf Hg pos Hpos.
+  destruct (Hf pos Hpos) as [b1 [E1 [M1 D1]]].
   pose proof (blen_nonneg b1).
-  destruct (Hg (pos + blen b1) ltac:(lia)) as [b2 [E2 D2]].
-  exists (b1 ++ b2). split.
+  destruct (Hg (pos + blen b1) ltac:(lia)) as [b2 [E2 [M2 D2]]].
+  pose proof (blen_nonneg b2).
+  exists (b1 ++ b2). split; [|split].
   - unfold seq2. rewrite E1. cbn [bind]. rewrite E2. cbn [bind]. rewrite blen_app.
     f_equal. f_equal. lia.
-  - intros pre post Hpre.
+  - rewrite blen_app. lia.
+  - rewrite blen_app. intros HB pre post c Hpre Hlim.
     replace (pre ++ (b1 ++ b2) ++ post) with (pre ++ b1 ++ (b2 ++ post)) by now rewrite <- !app_assoc.
-    rewrite (D1 pre (b2 ++ post) Hpre). cbn [dbind].
+    rewrite (D1 ltac:(lia) pre (b2 ++ post) c Hpre ltac:(lia)). cbn [dbind].
     replace (pre ++ b1 ++ b2 ++ post) with ((pre ++ b1) ++ b2 ++ post) by now rewrite <- !app_assoc.
-    rewrite (D2 (pre ++ b1) post) by (rewrite blen_app; lia).
-    rewrite blen_app. f_equal. lia.
+    replace (c_org c + pos + blen b1) with (c_org c + (pos + blen b1)) by lia.
+    rewrite (D2 ltac:(lia) (pre ++ b1) post c) by (try rewrite blen_app; lia).
+    f_equal. lia.
 Qed.
 
-Lemma rt_map : forall {A B} f (df : list Z -> Z -> dres A) a (h : A -> B),
-  rt_ok f df a -> rt_ok f (fun buf pos => dbind (df buf pos) (fun x p => DOk (h x) p)) (h a).
+Lemma rt_map : forall {A C} B m f (df : list Z -> rctx -> Z -> dres A) a (h : A -> C),
+  rt_ok B m f df a ->
+  rt_ok B m f (fun buf c pos => dbind (df buf c pos) (fun x p => DOk (h x) p)) (h a).
 Proof.
-  intros A B f df a h Hf pos Hpos. destruct (Hf pos Hpos) as [bs [E1 D1]].
-  exists bs. split; [assumption|]. intros pre post Hpre. now rewrite (D1 pre post Hpre).
+  intros A C B m f df a h Hf pos Hpos. destruct (Hf pos Hpos) as [bs [E1 [M1 D1]]].
+  exists bs. split; [assumption|]. split; [assumption|].
+  intros HB pre post c Hpre Hlim. now rewrite (D1 HB pre post c Hpre Hlim).
 Qed.
 
-Lemma rt_ext : forall {A} f f' (df df' : list Z -> Z -> dres A) a,
-  (forall pos, f pos = f' pos) -> (forall buf pos, df buf pos = df' buf pos) ->
-  rt_ok f df a -> rt_ok f' df' a.
+Lemma rt_ext : forall {A} B m f f' (df df' : list Z -> rctx -> Z -> dres A) a,
+  (forall pos, f pos = f' pos) -> (forall buf c pos, df buf c pos = df' buf c pos) ->
+  rt_ok B m f df a -> rt_ok B m f' df' a.
 Proof.
-  intros A f f' df df' a Hf Hd H pos Hpos. destruct (H pos Hpos) as [bs [E1 D1]].
-  exists bs. split; [now rewrite <- Hf|]. intros. rewrite <- Hd. now apply D1.
+  intros A B m f f' df df' a Hf Hd H pos Hpos. destruct (H pos Hpos) as [bs [E1 [M1 D1]]].
+  exists bs. split; [now rewrite <- Hf|]. split; [assumption|].
+  intros. rewrite <- Hd. now apply D1.
+Qed.
+
+Lemma rt_weaken : forall {A} B m m' f (df : list Z -> rctx -> Z -> dres A) a,
+  m' <= m -> rt_ok B m f df a -> rt_ok B m' f df a.
+Proof.
+  intros A B m m' f df a Hm H pos Hpos. destruct (H pos Hpos) as [bs [E1 [M1 D1]]].
+  exists bs. repeat split; try assumption. lia.
+Qed.
+
+(* the length-versus-bytes guard never fires on a complete encoding *)
+Lemma rt_guard : forall {A} B m (g : bool) n f (df : list Z -> rctx -> Z -> dres A) a,
+  (g = true -> n <= m) -> rt_ok B m f df a ->
+  rt_ok B m f (fun buf c p => if g && too_long c n p then DErr E_NED p else df buf c p) a.
+Proof.
+  intros A B m g n f df a Hg H pos Hpos. destruct (H pos Hpos) as [bs [E1 [M1 D1]]].
+  exists bs. repeat split; try assumption.
+  intros HB pre post c Hpre Hlim.
+  replace (g && too_long c n (c_org c + pos)) with false; [now apply D1|].
+  symmetry. destruct g; [|reflexivity]. cbn [andb]. unfold too_long. apply gtb_false.
+  specialize (Hg eq_refl). lia.
 Qed.
 
 (* raw bytes *)
-Lemma rt_raw : forall bs, rt_ok (ret bs) (fun buf pos => read_bytes buf pos (blen bs)) bs.
+Lemma rt_raw : forall B bs,
+  rt_ok B (blen bs) (ret bs) (fun buf c pos => read_bytes buf c pos (blen bs)) bs.
 Proof.
-  intros bs pos Hpos. exists bs. split; [reflexivity|].
-  intros pre post Hpre. subst pos. apply read_mid.
+  intros B bs pos Hpos. exists bs. split; [reflexivity|]. split; [lia|].
+  intros HB pre post c Hpre Hlim. rewrite <- Hpre. apply read_mid. lia.
 Qed.
 
 (* ------------------------------------------------------------------ primitives *)
@@ -130,62 +157,64 @@ Proof.
     assert (z = 1) by (apply orb_prop in Hr; destruct Hr; boolZ; lia). subst z. reflexivity.
 Qed.
 
-Lemma des_prim_unfold : forall V E buf k pos,
-  des_prim V E buf k pos =
-  dbind (dec_align V buf (sk_size k) pos) (fun _ p =>
-  dbind (read_bytes buf p (sk_size k)) (fun bs p' => prim_conv E k bs p')).
+Lemma des_prim_unfold : forall V E buf c k pos,
+  des_prim V E buf c k pos =
+  dbind (dec_align V c (sk_size k) pos) (fun _ p =>
+  dbind (read_bytes buf c p (sk_size k)) (fun bs p' => prim_conv E k bs p')).
 Proof. intros. unfold des_prim, prim_conv. destruct k; reflexivity. Qed.
 
 Lemma sk_size_pos : forall k, 0 < sk_size k.
 Proof. destruct k; unfold sk_size, sk_bytes; lia. Qed.
 
-Lemma rt_prim : forall V E k z,
+Lemma rt_prim : forall V E B k z,
   in_range k z = true ->
-  rt_ok (ser_prim V E k z) (fun buf => des_prim V E buf k) z.
+  rt_ok B (sk_size k) (ser_prim V E k z) (fun buf c => des_prim V E buf c k) z.
 Proof.
-  intros V E k z Hr pos Hpos. pose proof (align_compat V (sk_size k)) as Hal.
-  exists (enc_align V (sk_size k) pos ++ prim_bytes E k z). split; [reflexivity|].
-  intros pre post Hpre. rewrite des_prim_unfold.
+  intros V E B k z Hr pos Hpos. pose proof (align_compat V (sk_size k)) as Hal.
   assert (Hm : 0 < Z.min (sk_size k) (maxalign V)).
   { pose proof (sk_size_pos k). destruct V; unfold maxalign; lia. }
   pose proof (padlen_range pos _ Hm) as Hpad.
+  destruct (prim_value E k z 0 Hr) as [Hlen _].
+  exists (enc_align V (sk_size k) pos ++ prim_bytes E k z). split; [reflexivity|]. split.
+  { rewrite blen_app, Hlen. unfold enc_align. rewrite blen_zeros; lia. }
+  intros HB pre post c Hpre Hlim. rewrite des_prim_unfold.
   unfold dec_align. rewrite <- Hal.
-  unfold enc_align. set (pad := padlen pos (Z.min (sk_size k) (maxalign V))) in *.
-  rewrite <- Hpre.
+  replace (c_org c + pos - c_org c) with pos by lia.
+  unfold enc_align in *. set (pad := padlen pos (Z.min (sk_size k) (maxalign V))) in *.
+  rewrite blen_app, blen_zeros, Hlen in Hlim by lia.
+  rewrite seek_ok by lia. cbn [dbind].
+  destruct (prim_value E k z (c_org c + pos + pad + sk_size k) Hr) as [_ Hconv].
   replace (pre ++ (zeros pad ++ prim_bytes E k z) ++ post)
-    with (pre ++ zeros pad ++ (prim_bytes E k z ++ post)) by now rewrite <- !app_assoc.
-  rewrite seek_mid by (rewrite blen_zeros; lia). cbn [dbind].
-  destruct (prim_value E k z (blen pre + pad + sk_size k) Hr) as [Hlen Hconv].
-  replace (pre ++ zeros pad ++ prim_bytes E k z ++ post)
     with ((pre ++ zeros pad) ++ prim_bytes E k z ++ post) by now rewrite <- !app_assoc.
-  replace (blen pre + pad) with (blen (pre ++ zeros pad)) by (rewrite blen_app, blen_zeros; lia).
-  rewrite <- Hlen. rewrite read_mid. cbn [dbind].
+  replace (c_org c + pos + pad) with (blen (pre ++ zeros pad)) by (rewrite blen_app, blen_zeros; lia).
+  rewrite <- Hlen. rewrite read_mid by (rewrite blen_app, blen_zeros, Hlen; lia). cbn [dbind].
   rewrite !blen_app, blen_zeros by lia. rewrite Hlen.
-  replace (blen pre + (pad + sk_size k)) with (blen pre + pad + sk_size k) by lia.
-  exact Hconv.
+  replace (blen pre + pad + sk_size k) with (c_org c + pos + pad + sk_size k) by lia.
+  rewrite Hconv. f_equal. lia.
 Qed.
 
 (* ------------------------------------------------------------------ lists *)
-Lemma rt_nil : forall {A} (a : A), rt_ok (fun pos => Ok ([], pos)) (fun _ pos => DOk a pos) a.
+Lemma rt_nil : forall {A} B (a : A), rt_ok B 0 (fun pos => Ok ([], pos)) (fun _ _ pos => DOk a pos) a.
 Proof.
-  intros A a pos Hpos. exists []. split.
+  intros A B a pos Hpos. exists []. split.
   - rewrite blen_nil. f_equal. f_equal. lia.
-  - intros. rewrite blen_nil. f_equal. lia.
+  - split; [rewrite blen_nil; lia|]. intros. rewrite blen_nil. f_equal. lia.
 Qed.
 
-Lemma rt_list : forall {A B} (f : A -> Z -> res W) (g : list Z -> Z -> dres B) (h : A -> B) l,
-  (forall a, In a l -> rt_ok (f a) g (h a)) ->
-  rt_ok (ser_list f l) (fun buf => des_n (g buf) (length l)) (map h l).
+Lemma rt_list : forall {A C} B m (f : A -> Z -> res W) (g : list Z -> rctx -> Z -> dres C) (h : A -> C) l,
+  0 <= m -> (forall a, In a l -> rt_ok B m (f a) g (h a)) ->
+  rt_ok B (m * Z.of_nat (length l)) (ser_list f l) (fun buf c => des_n (g buf c) (length l)) (map h l).
 Proof.
-  induction l as [|a l IH]; intros Hall.
-  - apply rt_nil.
+  induction l as [|a l IH]; intros Hm Hall.
+  - cbn [length Z.of_nat]. rewrite Z.mul_0_r. apply rt_nil.
   - cbn [ser_list length des_n map].
-    apply (rt_bind (f a) (ser_list f l) g
-             (fun x buf pos => dbind (des_n (g buf) (length l) pos) (fun l' p2 => DOk (x :: l') p2))
+    replace (m * Z.of_nat (S (length l))) with (m + m * Z.of_nat (length l)) by lia.
+    apply (rt_bind B m (m * Z.of_nat (length l)) (f a) (ser_list f l) g
+             (fun x buf c pos => dbind (des_n (g buf c) (length l) pos) (fun l' p2 => DOk (x :: l') p2))
              (h a) (h a :: map h l)).
     + apply Hall. now left.
-    + apply (rt_map (ser_list f l) (fun buf => des_n (g buf) (length l)) (map h l) (cons (h a))).
-      apply IH. intros. apply Hall. now right.
+    + apply (rt_map B _ (ser_list f l) (fun buf c => des_n (g buf c) (length l)) (map h l) (cons (h a))).
+      apply IH; [assumption|]. intros. apply Hall. now right.
 Qed.
 
 Lemma dbind_assoc : forall {A B C} (r : dres A) (f : A -> Z -> dres B) (g : B -> Z -> dres C),
@@ -231,155 +260,197 @@ Proof.
     rewrite des_pos_nat, SuccNat2Pos.id_succ. reflexivity.
 Qed.
 
-Lemma rt_list_z : forall {A B} (f : A -> Z -> res W) (g : list Z -> Z -> dres B) (h : A -> B) l n,
-  n = Z.of_nat (length l) ->
-  (forall a, In a l -> rt_ok (f a) g (h a)) ->
-  rt_ok (ser_list f l) (fun buf => des_z (g buf) n) (map h l).
-Proof.
-  intros. subst n.
-  apply (rt_ext (ser_list f l) _ (fun buf => des_n (g buf) (length l))).
-  - reflexivity.
-  - intros. now rewrite des_z_nat.
-  - now apply rt_list.
-Qed.
-
 Lemma map_id_eq : forall {A} (l : list A), map (fun x => x) l = l.
 Proof. induction l; cbn; congruence. Qed.
 
-Lemma rt_list_id : forall {A} (f : A -> Z -> res W) (g : list Z -> Z -> dres A) l n,
-  n = Z.of_nat (length l) ->
-  (forall a, In a l -> rt_ok (f a) g a) ->
-  rt_ok (ser_list f l) (fun buf => des_z (g buf) n) l.
+Lemma rt_list_id : forall {A} B m (f : A -> Z -> res W) (g : list Z -> rctx -> Z -> dres A) l n,
+  0 <= m -> n = Z.of_nat (length l) ->
+  (forall a, In a l -> rt_ok B m (f a) g a) ->
+  rt_ok B (m * n) (ser_list f l) (fun buf c => des_z (g buf c) n) l.
 Proof.
-  intros A f g l n Hn Hall. pose proof (rt_list_z f g (fun x => x) l n Hn Hall) as H.
-  now rewrite map_id_eq in H.
+  intros A B m f g l n Hm Hn Hall. subst n.
+  pose proof (rt_list B m f g (fun x => x) l Hm Hall) as H. rewrite map_id_eq in H.
+  eapply rt_ext; [reflexivity| |exact H]. intros. cbv beta. now rewrite des_z_nat.
 Qed.
 
 (* ------------------------------------------------------------------ u32 fields *)
-
-Lemma rt_u32 : forall V E z, 0 <= z <= u32_max ->
-  rt_ok (ser_prim V E KU32 z) (fun buf => des_prim V E buf KU32) z.
+Lemma rt_u32 : forall V E B z, 0 <= z <= u32_max ->
+  rt_ok B 4 (ser_prim V E KU32 z) (fun buf c => des_prim V E buf c KU32) z.
 Proof.
-  intros. apply rt_prim.
+  intros. apply (rt_prim V E B KU32).
   unfold in_range, u32_max in *. apply andb_true_intro. split; [apply Z.leb_le|apply Z.ltb_lt]; lia.
 Qed.
 
 (* ------------------------------------------------------------------ strings *)
-Lemma rt_string : forall V E s, str_ok s = true ->
-  rt_ok (ser_string V E s) (fun buf => des_string V E buf) s.
+Lemma rt_string : forall V E B s, str_ok s = true ->
+  rt_ok B 1 (ser_string V E s) (fun buf c => des_string V E buf c) s.
 Proof.
-  intros V E s Hs. unfold str_ok in Hs. boolZ.
+  intros V E B s Hs. unfold str_ok in Hs. boolZ.
   unfold ser_string, des_string. cbv zeta.
   pose proof (blen_nonneg (utf8_enc s)) as Hnn.
   assert (Hw : wrap_u32 (blen (utf8_enc s)) = blen (utf8_enc s)).
   { unfold wrap_u32, two32. apply Z.mod_small. unfold u32_max in *. lia. }
   rewrite Hw.
-  apply (rt_bind _ _ (fun buf => des_prim V E buf KU32)
-           (fun len buf p1 =>
-              dbind (read_bytes buf p1 (Z.max 0 (len - 1))) (fun bs p2 =>
-              dbind (read_bytes buf p2 1) (fun _ p3 =>
+  apply (rt_weaken B (4 + 1)); [lia|].
+  apply (rt_bind B 4 1 _ _ (fun buf c => des_prim V E buf c KU32)
+           (fun len buf c p1 =>
+              dbind (read_bytes buf c p1 (Z.max 0 (len - 1))) (fun bs p2 =>
+              dbind (read_bytes buf c p2 1) (fun _ p3 =>
               match utf8_dec bs with Some s => DOk s p3 | None => DErr E_DATA p3 end)))
            (blen (utf8_enc s) + 1) s).
   - apply rt_u32. lia.
   - intros pos Hpos. exists (utf8_enc s ++ [0]). split; [reflexivity|].
-    intros pre post Hpre. subst pos.
+    split; [rewrite blen_app, blen_cons, blen_nil; lia|].
+    intros HB pre post c Hpre Hlim. rewrite blen_app, blen_cons, blen_nil in Hlim.
     replace (Z.max 0 (blen (utf8_enc s) + 1 - 1)) with (blen (utf8_enc s)) by lia.
     replace (pre ++ (utf8_enc s ++ [0]) ++ post) with (pre ++ utf8_enc s ++ ([0] ++ post))
       by now rewrite <- !app_assoc.
-    rewrite read_mid. cbn [dbind].
+    rewrite <- Hpre. rewrite read_mid by lia. cbn [dbind].
     replace (pre ++ utf8_enc s ++ [0] ++ post) with ((pre ++ utf8_enc s) ++ [0] ++ post)
       by now rewrite <- !app_assoc.
     replace (blen pre + blen (utf8_enc s)) with (blen (pre ++ utf8_enc s)) by now rewrite blen_app.
-    change 1 with (blen [0]) at 1. rewrite read_mid. cbn [dbind].
-    rewrite utf8_dec_enc by assumption. rewrite !blen_app. f_equal. lia.
+    change 1 with (blen [0]) at 1. rewrite read_mid by (rewrite blen_app, blen_cons, blen_nil; lia).
+    cbn [dbind]. rewrite utf8_dec_enc by assumption. rewrite !blen_app. f_equal. lia.
 Qed.
 
-Lemma rt_wstring : forall V E s, str_ok s = true ->
-  rt_ok (ser_wstring V E s) (fun buf => des_wstring V E buf) s.
+Lemma rt_wstring : forall V E B s, str_ok s = true ->
+  rt_ok B 1 (ser_wstring V E s) (fun buf c => des_wstring V E buf c) s.
 Proof.
-  intros V E s Hs. unfold str_ok in Hs. boolZ.
+  intros V E B s Hs. unfold str_ok in Hs. boolZ.
   unfold ser_wstring, des_wstring. cbv zeta.
   pose proof (blen_nonneg (utf16_enc s)) as Hnn.
   assert (Hw : wrap_u32 (blen (utf16_enc s)) = blen (utf16_enc s)).
   { unfold wrap_u32, two32. apply Z.mod_small. unfold u32_max in *. lia. }
-  rewrite Hw.
-  apply (rt_bind _ _ (fun buf => des_prim V E buf KU32)
-           (fun len buf p1 =>
+  rewrite Hw. set (n := blen (utf16_enc s)) in *.
+  apply (rt_weaken B (4 + (2 * n + 2))); [lia|].
+  apply (rt_bind B 4 (2 * n + 2) _ _ (fun buf c => des_prim V E buf c KU32)
+           (fun len buf c p1 =>
               if len =? 0 then DOk [] p1 else
-              dbind (des_z (des_prim V E buf KU16) (len - 1) p1) (fun us p2 =>
-              dbind (des_prim V E buf KU16 p2) (fun nul p3 =>
+              if too_long c (len - 1) p1 then DErr E_NED p1 else
+              dbind (des_z (des_prim V E buf c KU16) (len - 1) p1) (fun us p2 =>
+              dbind (des_prim V E buf c KU16 p2) (fun nul p3 =>
               if negb (nul =? 0) then DErr E_DATA p3 else
               match utf16_dec us with Some s => DOk s p3 | None => DErr E_DATA p3 end)))
-           (blen (utf16_enc s) + 1) s).
+           (n + 1) s).
   - apply rt_u32. lia.
-  - replace (blen (utf16_enc s) + 1 =? 0) with false by (symmetry; apply Z.eqb_neq; lia).
-    apply (rt_bind _ _ (fun buf => des_z (des_prim V E buf KU16) (blen (utf16_enc s) + 1 - 1))
-             (fun us buf p2 =>
-                dbind (des_prim V E buf KU16 p2) (fun nul p3 =>
-                if negb (nul =? 0) then DErr E_DATA p3 else
-                match utf16_dec us with Some s => DOk s p3 | None => DErr E_DATA p3 end))
-             (utf16_enc s) s).
-    + rewrite <- (map_id_eq (utf16_enc s)) at 2.
-      apply rt_list_z; [unfold blen; lia|].
-      intros u Hu. apply rt_prim.
-      pose proof (utf16_units_range s H) as Hf. rewrite Forall_forall in Hf. specialize (Hf u Hu).
-      unfold in_range. apply andb_true_intro. split; [apply Z.leb_le|apply Z.ltb_lt]; lia.
-    + intros pos Hpos.
-      destruct (rt_prim V E KU16 0 eq_refl pos Hpos) as [bs [E1 D1]].
-      exists bs. split; [exact E1|]. intros pre post Hpre.
-      rewrite (D1 pre post Hpre). cbn [dbind]. change (negb (0 =? 0)) with false. cbv iota.
-      rewrite utf16_dec_enc by assumption. reflexivity.
+  - replace (n + 1 =? 0) with false by (symmetry; apply Z.eqb_neq; lia).
+    replace (n + 1 - 1) with n by lia.
+    assert (Hin : rt_ok B (2 * n + 2)
+              (seq2 (ser_list (ser_prim V E KU16) (utf16_enc s)) (ser_prim V E KU16 0))
+              (fun buf c p1 =>
+                 dbind (des_z (des_prim V E buf c KU16) n p1) (fun us p2 =>
+                 dbind (des_prim V E buf c KU16 p2) (fun nul p3 =>
+                 if negb (nul =? 0) then DErr E_DATA p3 else
+                 match utf16_dec us with Some s => DOk s p3 | None => DErr E_DATA p3 end))) s).
+    { apply (rt_bind B (2 * n) 2 _ _ (fun buf c => des_z (des_prim V E buf c KU16) n)
+               (fun us buf c p2 =>
+                  dbind (des_prim V E buf c KU16 p2) (fun nul p3 =>
+                  if negb (nul =? 0) then DErr E_DATA p3 else
+                  match utf16_dec us with Some s => DOk s p3 | None => DErr E_DATA p3 end))
+               (utf16_enc s) s).
+      + apply (rt_list_id B 2); [lia|unfold n, blen; lia|].
+        intros u Hu. apply (rt_prim V E B KU16).
+        pose proof (utf16_units_range s H) as Hf. rewrite Forall_forall in Hf. specialize (Hf u Hu).
+        unfold in_range. apply andb_true_intro. split; [apply Z.leb_le|apply Z.ltb_lt]; lia.
+      + intros pos Hpos.
+        destruct (rt_prim V E B KU16 0 eq_refl pos Hpos) as [bs [E1 [M1 D1]]].
+        exists bs. split; [exact E1|]. split; [exact M1|]. intros HB pre post c Hpre Hlim.
+        rewrite (D1 HB pre post c Hpre Hlim). cbn [dbind]. change (negb (0 =? 0)) with false. cbv iota.
+        rewrite utf16_dec_enc by assumption. reflexivity. }
+    pose proof (rt_guard B (2 * n + 2) true n _ _ s ltac:(intros; lia) Hin) as Hg.
+    cbn [andb] in Hg. exact Hg.
 Qed.
 
 (* ------------------------------------------------------------------ DHEADER *)
-Lemma rt_dheader_gen : forall {A} V E body (dbody : list Z -> Z -> dres A) a
-    (dhdr : list Z -> Z -> dres A),
-  (forall buf pos z p, des_prim V E buf KU32 pos = DOk z p -> dhdr buf pos = dbody buf p) ->
-  rt_ok body dbody a -> rt_ok (ser_dheader V E body) dhdr a.
+Lemma ser_dheader_shape : forall {A} V E B m body (dbody : list Z -> rctx -> Z -> dres A) a pos,
+  0 <= pos -> rt_ok B m body dbody a ->
+  exists bb, let pad := enc_align V 4 pos in let z := wrap_u32 (blen bb) in
+    body (pos + blen pad + 4) = Ok (bb, pos + blen pad + 4 + blen bb) /\ m <= blen bb /\
+    ser_dheader V E body pos = Ok (pad ++ int_enc E 4 z ++ bb, pos + blen (pad ++ int_enc E 4 z ++ bb)) /\
+    ser_prim V E KU32 z pos = Ok (pad ++ int_enc E 4 z, pos + blen (pad ++ int_enc E 4 z)) /\
+    (blen bb <= B -> forall pre post c, blen pre = c_org c + (pos + blen pad + 4) ->
+       c_org c + (pos + blen pad + 4) + blen bb <= c_lim c ->
+       dbody (pre ++ bb ++ post) c (c_org c + (pos + blen pad + 4)) =
+       DOk a (c_org c + (pos + blen pad + 4) + blen bb)).
 Proof.
-  intros A V E body dbody a dhdr Hd Hb pos Hpos.
-  unfold ser_dheader. cbv zeta.
-  set (pad := enc_align V 4 pos).
-  assert (Hp1 : 0 <= pos + blen pad + 4) by (pose proof (blen_nonneg pad); lia).
-  destruct (Hb _ Hp1) as [bb [E1 D1]].
-  set (z := wrap_u32 (blen bb)).
-  assert (Hz : 0 <= z <= u32_max).
-  { unfold z, wrap_u32, two32, u32_max. lia. }
-  destruct (rt_u32 V E z Hz pos Hpos) as [hb [E2 D2]].
-  assert (Hhb : hb = pad ++ int_enc E 4 z).
-  { unfold ser_prim, ret in E2. inversion E2. reflexivity. }
-  subst hb.
-  exists (pad ++ int_enc E 4 z ++ bb). split.
-  - rewrite E1. cbn [bind]. f_equal. f_equal.
+  intros A V E B m body dbody a pos Hpos Hb. cbv zeta.
+  assert (Hp1 : 0 <= pos + blen (enc_align V 4 pos) + 4) by (pose proof (blen_nonneg (enc_align V 4 pos)); lia).
+  destruct (Hb _ Hp1) as [bb [E1 [M1 D1]]].
+  exists bb. repeat split; try assumption.
+  - unfold ser_dheader. cbv zeta. rewrite E1. cbn [bind]. f_equal. f_equal.
     rewrite !blen_app, int_enc_blen. lia.
-  - intros pre post Hpre.
-    replace (pre ++ (pad ++ int_enc E 4 z ++ bb) ++ post)
-      with (pre ++ (pad ++ int_enc E 4 z) ++ (bb ++ post)) by now rewrite <- !app_assoc.
-    rewrite (Hd _ _ _ _ (D2 pre (bb ++ post) Hpre)).
-    replace (pre ++ (pad ++ int_enc E 4 z) ++ bb ++ post)
-      with ((pre ++ pad ++ int_enc E 4 z) ++ bb ++ post) by now rewrite <- !app_assoc.
-    rewrite blen_app, int_enc_blen.
-    replace (pos + (blen pad + Z.of_nat 4)) with (pos + blen pad + 4) by lia.
-    rewrite (D1 (pre ++ pad ++ int_enc E 4 z) post)
-      by (rewrite !blen_app, int_enc_blen; lia).
-    f_equal. rewrite !blen_app, int_enc_blen. lia.
 Qed.
 
-Lemma rt_dheader : forall {A} V E body (dbody : list Z -> Z -> dres A) a,
-  rt_ok body dbody a ->
-  rt_ok (ser_dheader V E body)
-        (fun buf pos => dbind (des_prim V E buf KU32 pos) (fun _ p => dbody buf p)) a.
+Lemma rt_dheader : forall {A} V E B m body (dbody : list Z -> rctx -> Z -> dres A) a,
+  rt_ok B m body dbody a ->
+  rt_ok B (4 + m) (ser_dheader V E body)
+        (fun buf c pos => dbind (des_prim V E buf c KU32 pos) (fun _ p => dbody buf c p)) a.
 Proof.
-  intros. eapply rt_dheader_gen; [|eassumption].
-  intros buf pos z p Hz. now rewrite Hz.
+  intros A V E B m body dbody a Hb pos Hpos.
+  destruct (ser_dheader_shape V E B m body dbody a pos Hpos Hb) as [bb [E1 [M1 [E2 [E3 D1]]]]].
+  cbv zeta in *. set (pad := enc_align V 4 pos) in *. set (z := wrap_u32 (blen bb)) in *.
+  assert (Hz : 0 <= z <= u32_max) by (unfold z, wrap_u32, two32, u32_max; lia).
+  destruct (rt_u32 V E B z Hz pos Hpos) as [hb [E4 [M4 D4]]].
+  rewrite E3 in E4. assert (Hhb : hb = pad ++ int_enc E 4 z) by (injection E4; intros; congruence).
+  clear E4. subst hb.
+  exists (pad ++ int_enc E 4 z ++ bb). split; [exact E2|].
+  pose proof (blen_nonneg pad). pose proof (blen_nonneg bb).
+  split; [rewrite !blen_app, int_enc_blen; lia|].
+  rewrite !blen_app, int_enc_blen. intros HB pre post c Hpre Hlim.
+  replace (pre ++ (pad ++ int_enc E 4 z ++ bb) ++ post)
+    with (pre ++ (pad ++ int_enc E 4 z) ++ (bb ++ post)) by now rewrite <- !app_assoc.
+  rewrite (D4 ltac:(rewrite blen_app, int_enc_blen; lia) pre (bb ++ post) c Hpre
+              ltac:(rewrite blen_app, int_enc_blen; lia)). cbn [dbind].
+  replace (pre ++ (pad ++ int_enc E 4 z) ++ bb ++ post)
+    with ((pre ++ pad ++ int_enc E 4 z) ++ bb ++ post) by now rewrite <- !app_assoc.
+  rewrite blen_app, int_enc_blen.
+  replace (c_org c + pos + (blen pad + Z.of_nat 4)) with (c_org c + (pos + blen pad + 4)) by lia.
+  rewrite (D1 ltac:(lia) (pre ++ pad ++ int_enc E 4 z) post c)
+    by (rewrite ?blen_app, ?int_enc_blen; lia).
+  f_equal. lia.
 Qed.
 
-Lemma rt_dheader_ignore : forall {A} V E body (dbody : list Z -> Z -> dres A) a,
-  rt_ok body dbody a ->
-  rt_ok (ser_dheader V E body) (fun buf pos => dbody buf (des_u32_ignore V E buf pos)) a.
+(* Rule (30) reader side: the DHEADER value is the limit of the object *)
+Lemma rt_appendable2 : forall V E B m body (dbody : list Z -> rctx -> Z -> dres dyn) a,
+  B <= u32_max -> rt_ok B m body dbody a ->
+  rt_ok B (4 + m) (ser_dheader V E body)
+        (fun buf c pos =>
+           dbind (des_prim V E buf c KU32 pos) (fun dh p =>
+           let e := p + dh in
+           if e >? c_lim c then DErr E_NED p else
+           match dbody buf (mkC (c_org c) e) p with
+           | DOk d _ => DOk d e | DErr code p' => DErr code p' | DPanic s => DPanic s
+           end)) a.
 Proof.
-  intros. eapply rt_dheader_gen; [|eassumption].
-  intros buf pos z p Hz. unfold des_u32_ignore. now rewrite Hz.
+  intros V E B m body dbody a HBu Hb pos Hpos.
+  destruct (ser_dheader_shape V E B m body dbody a pos Hpos Hb) as [bb [E1 [M1 [E2 [E3 D1]]]]].
+  cbv zeta in *. set (pad := enc_align V 4 pos) in *. set (z := wrap_u32 (blen bb)) in *.
+  assert (Hz : 0 <= z <= u32_max) by (unfold z, wrap_u32, two32, u32_max; lia).
+  destruct (rt_u32 V E B z Hz pos Hpos) as [hb [E4 [M4 D4]]].
+  rewrite E3 in E4. assert (Hhb : hb = pad ++ int_enc E 4 z) by (injection E4; intros; congruence).
+  clear E4. subst hb.
+  exists (pad ++ int_enc E 4 z ++ bb). split; [exact E2|].
+  pose proof (blen_nonneg pad). pose proof (blen_nonneg bb).
+  split; [rewrite !blen_app, int_enc_blen; lia|].
+  rewrite !blen_app, int_enc_blen. intros HB pre post c Hpre Hlim.
+  assert (Hzb : z = blen bb).
+  { unfold z, wrap_u32, two32. apply Z.mod_small. unfold u32_max in *. lia. }
+  replace (pre ++ (pad ++ int_enc E 4 z ++ bb) ++ post)
+    with (pre ++ (pad ++ int_enc E 4 z) ++ (bb ++ post)) by now rewrite <- !app_assoc.
+  rewrite (D4 ltac:(rewrite blen_app, int_enc_blen; lia) pre (bb ++ post) c Hpre
+              ltac:(rewrite blen_app, int_enc_blen; lia)). cbn [dbind]. cbv zeta.
+  rewrite blen_app, int_enc_blen.
+  replace (c_org c + pos + (blen pad + Z.of_nat 4) + z)
+    with (c_org c + (pos + blen pad + 4) + blen bb) by lia.
+  rewrite gtb_false by lia.
+  replace (pre ++ (pad ++ int_enc E 4 z) ++ bb ++ post)
+    with ((pre ++ pad ++ int_enc E 4 z) ++ bb ++ post) by now rewrite <- !app_assoc.
+  replace (c_org c + pos + (blen pad + Z.of_nat 4)) with (c_org c + (pos + blen pad + 4)) by lia.
+  pose proof (D1 ltac:(lia) (pre ++ pad ++ int_enc E 4 z) post
+                 (mkC (c_org c) (c_org c + (pos + blen pad + 4) + blen bb))) as D1'.
+  cbn [c_org c_lim] in D1'.
+  rewrite D1' by (rewrite ?blen_app, ?int_enc_blen; lia).
+  f_equal. lia.
 Qed.
 
 (* ------------------------------------------------------------------ induction on types *)
@@ -429,8 +500,8 @@ Proof.
   intros. cbn [ser_ty]. f_equal. f_equal.
   induction ms as [|[m t] r IH]; [reflexivity|]. cbn [cvS map fst snd]. f_equal. exact IH.
 Qed.
-Lemma des_ty_struct : forall V E buf x ms pos,
-  des_ty V E buf (TStruct x ms) pos = as_data (des_struct_nested V E buf x (cvD V E buf ms) pos).
+Lemma des_ty_struct : forall V E buf x ms c pos,
+  des_ty V E buf (TStruct x ms) c pos = as_data (des_struct_nested V E buf x (cvD V E buf ms) c pos).
 Proof.
   intros. cbn [des_ty]. f_equal. f_equal.
   induction ms as [|[m t] r IH]; [reflexivity|]. cbn [cvD map fst snd]. f_equal. exact IH.
@@ -442,25 +513,26 @@ Lemma sk_eqb_refl : forall a, sk_eqb a a = true.
 Proof. destruct a; reflexivity. Qed.
 
 (* ------------------------------------------------------------------ enumerations *)
-Lemma rt_enum : forall V E h ls d,
+Lemma rt_enum : forall V E B h ls d,
   holder_ok h = true -> wt (TEnum h ls) (VData d) = true ->
-  rt_ok (ser_enum V E h d) (fun buf => des_enum V E buf h ls) d.
+  rt_ok B 1 (ser_enum V E h d) (fun buf c => des_enum V E buf c h ls) d.
 Proof.
-  intros V E h ls d Hh Hw. cbn [wt] in Hw.
+  intros V E B h ls d Hh Hw. cbn [wt] in Hw.
   destruct d as [|[k0 v0] r]; [discriminate|].
   destruct k0; try discriminate.
   destruct v0 as [k z| | | | |]; try discriminate.
   destruct r; [|discriminate].
   apply andb_prop in Hw as [Hw Hl]. apply andb_prop in Hw as [Hk Hr].
   apply sk_eqb_eq in Hk. subst k.
-  pose proof (rt_prim V E (prim_sk h) z Hr) as Hp.
-  intros pos Hpos. destruct (Hp pos Hpos) as [bs [E1 D1]].
-  exists bs. split.
+  pose proof (rt_prim V E B (prim_sk h) z Hr) as Hp.
+  intros pos Hpos. destruct (Hp pos Hpos) as [bs [E1 [M1 D1]]].
+  exists bs. split; [|split].
   - destruct h; try discriminate; cbn [ser_enum get_k lookup Z.eqb sk_eqb bind prim_sk] in *; exact E1.
-  - intros pre post Hpre. unfold des_enum.
+  - pose proof (sk_size_pos (prim_sk h)). lia.
+  - intros HB pre post c Hpre Hlim. unfold des_enum.
     replace (match h with PI8 => Some KI8 | PI16 => Some KI16 | PI32 => Some KI32 | _ => None end)
       with (Some (prim_sk h)) by (destruct h; try discriminate; reflexivity).
-    rewrite (D1 pre post Hpre). cbn [dbind]. unfold mem in Hl. rewrite Hl. reflexivity.
+    rewrite (D1 HB pre post c Hpre Hlim). cbn [dbind]. unfold mem in Hl. rewrite Hl. reflexivity.
 Qed.
 
 (* ------------------------------------------------------------------ DynamicData maps *)
@@ -632,730 +704,154 @@ Proof.
     + apply IH; assumption.
 Qed.
 
-Definition mem_hyp (V : ver) (E : endian) (ms : list (minfo * ty)) (d : dyn) : Prop :=
+
+(* lower bounds on the encoded size *)
+Definition msz (t : ty) : Z := if occupies t then 1 else 0.
+Definition mlow (mt : minfo * ty) : Z := if m_opt (fst mt) || occupies (snd mt) then 1 else 0.
+Definition slow (ms : list (minfo * ty)) : Z :=
+  if existsb (fun mt : minfo * ty => m_opt (fst mt) || occupies (snd mt)) ms then 1 else 0.
+
+Lemma occupies_struct : forall x ms,
+  occupies (TStruct x ms) = existsb (fun mt : minfo * ty => m_opt (fst mt) || occupies (snd mt)) ms.
+Proof.
+  intros. cbn [occupies]. induction ms as [|[m t] r IH]; [reflexivity|].
+  cbn [existsb fst snd]. now rewrite IH.
+Qed.
+
+Definition mem_hyp (V : ver) (E : endian) (B : Z) (ms : list (minfo * ty)) (d : dyn) : Prop :=
   nodup_z (ids ms) = true /\
-  (V = V1 -> Forall (fun mt => m_opt (fst mt) = false) ms) /\
+  (V = V1 -> existsb (fun mx : minfo * ty => m_opt (fst mx)) ms = true -> B <= 65535) /\
+  Forall (fun mt : minfo * ty =>
+            m_opt (fst mt) = true ->
+            occupies (snd mt) = true /\
+            (V = V1 -> m_mu (fst mt) && (49152 <=? wrap_u16 (m_id (fst mt))) = false)) ms /\
   Forall (fun mt : minfo * ty =>
     match lookup (m_id (fst mt)) d with
-    | Some v => rt_ok (ser_ty V E (snd mt) v) (fun buf => des_ty V E buf (snd mt)) v
+    | Some v => rt_ok B (msz (snd mt)) (ser_ty V E (snd mt) v) (fun buf c => des_ty V E buf (snd mt) c) v
     | None => m_opt (fst mt) = true
     end) ms.
 
-Lemma rt_value : forall V E ms d mt acc v, mem_hyp V E ms d -> In mt ms -> lookup (m_id (fst mt)) d = Some v ->
-  rt_ok (ser_value (cvS V E ms) d (m_id (fst mt)))
-        (fun buf => des_value (fst mt, (snd mt, des_ty V E buf (snd mt))) acc)
+Lemma rt_value : forall V E B ms d mt acc v, mem_hyp V E B ms d -> In mt ms ->
+  lookup (m_id (fst mt)) d = Some v ->
+  rt_ok B (msz (snd mt)) (ser_value (cvS V E ms) d (m_id (fst mt)))
+        (fun buf c => des_value (fst mt, (snd mt, des_ty V E buf (snd mt))) acc c)
         (insert (m_id (fst mt)) v acc).
 Proof.
-  intros V E ms d mt acc v [Hnd [Hopt1 Hmem]] Hin Hv.
+  intros V E B ms d mt acc v [Hnd [HB1 [Hopt Hmem]]] Hin Hv.
   pose proof Hmem as Hm. rewrite Forall_forall in Hm. specialize (Hm mt Hin). rewrite Hv in Hm.
-  apply (rt_ext (ser_ty V E (snd mt) v) _
-           (fun buf pos => dbind (des_ty V E buf (snd mt) pos)
-                                 (fun x p => DOk ((fun x => insert (m_id (fst mt)) x acc) x) p))).
+  apply (rt_ext B _ (ser_ty V E (snd mt) v) _
+           (fun buf c pos => dbind (des_ty V E buf (snd mt) c pos)
+                                   (fun x p => DOk ((fun x => insert (m_id (fst mt)) x acc) x) p))).
   - intros pos. unfold ser_value. rewrite find_cvS by assumption. unfold get. rewrite Hv. reflexivity.
   - reflexivity.
-  - apply (rt_map _ _ v (fun x => insert (m_id (fst mt)) x acc)). exact Hm.
+  - apply (rt_map B _ _ _ v (fun x => insert (m_id (fst mt)) x acc)). exact Hm.
 Qed.
 
-Lemma rt_fmember : forall V E ms d mt acc, mem_hyp V E ms d -> In mt ms ->
-  rt_ok (ser_fmember V E (cvS V E ms) d (m_id (fst mt)))
-        (fun buf => des_fmember V E buf (fst mt, (snd mt, des_ty V E buf (snd mt))) acc)
+Lemma even_align2 : forall V q, q mod 2 = 0 -> enc_align V 2 q = [].
+Proof.
+  intros V q Hq. unfold enc_align.
+  replace (padlen q (Z.min 2 (maxalign V))) with 0; [reflexivity|].
+  unfold padlen, align_up. destruct V; cbn [maxalign]; change (Z.min 2 8) with 2; change (Z.min 2 4) with 2; lia.
+Qed.
+
+(* Rule (19)/(24), XCDR1: parameter header, value from a fresh origin, origin popped afterwards;
+   read in place *)
+Lemma rt_opt1 : forall E B ms d mt acc, mem_hyp V1 E B ms d -> In mt ms -> m_opt (fst mt) = true ->
+  rt_ok B 4 (ser_mmember1 V1 E (cvS V1 E ms) d (m_id (fst mt)))
+        (fun buf c => des_opt_fmember V1 E buf (fst mt, (snd mt, des_ty V1 E buf (snd mt))) acc c)
         (match lookup (m_id (fst mt)) d with
          | Some v => insert (m_id (fst mt)) v acc
          | None => acc
          end).
 Proof.
-  intros V E ms d mt acc HH Hin. pose proof HH as [Hnd [Hopt1 Hmem]].
-  pose proof Hmem as Hm. rewrite Forall_forall in Hm. specialize (Hm mt Hin).
-  unfold ser_fmember, des_fmember. cbn [fst].
-  destruct (m_opt (fst mt)) eqn:Hopt.
-  - (* optional: only XCDR2 *)
-    destruct V eqn:HV.
-    { pose proof (Hopt1 eq_refl) as Ho. rewrite Forall_forall in Ho. specialize (Ho mt Hin). congruence. }
+  intros E B ms d mt acc HH Hin Hopt pos Hpos.
+  pose proof HH as [Hnd [HB1 [Hoc Hmem]]].
+  rewrite Forall_forall in Hoc, Hmem. specialize (Hoc mt Hin Hopt) as [Hocc Hpidok].
+  specialize (Hpidok eq_refl). specialize (Hmem mt Hin).
+  assert (HB : B <= 65535).
+  { apply HB1; [reflexivity|]. apply existsb_exists. now exists mt. }
+  set (pad := zeros (padlen pos 4)).
+  assert (Hpl : 0 <= padlen pos 4 < 4) by (apply padlen_range; lia).
+  assert (Hbp : blen pad = padlen pos 4) by (unfold pad; apply blen_zeros; lia).
+  set (q := pos + blen pad).
+  assert (Hq4 : q mod 4 = 0) by (unfold q; rewrite Hbp; apply padlen_aligned; lia).
+  set (pid := wrap_u16 (m_id (fst mt)) + (if m_mu (fst mt) then 16384 else 0)).
+  assert (Hpid : 0 <= pid <= 65535).
+  { unfold pid, wrap_u16 in *. destruct (m_mu (fst mt)); cbn [andb] in Hpidok; [apply Z.leb_gt in Hpidok|]; lia. }
+  (* the two header fields as aligned u16 primitives *)
+  destruct (rt_prim V1 E B KU16 pid ltac:(unfold in_range; apply andb_true_intro; split; [apply Z.leb_le|apply Z.ltb_lt]; lia)
+              q ltac:(unfold q; lia)) as [b1 [E1 [_ D1]]].
+  assert (Hb1 : b1 = int_enc E 2 pid).
+  { unfold ser_prim, ret in E1. rewrite even_align2 in E1 by lia. cbn [app prim_bytes sk_bytes] in E1.
+    injection E1; intros; congruence. }
+  (* the value *)
+  assert (Hbody : exists body p3,
+    match lookup (m_id (fst mt)) d with
+    | Some _ => unwrap (ser_value (cvS V1 E ms) d (m_id (fst mt)) 0)
+    | None => Ok ([], 0)
+    end = Ok (body, p3) /\ p3 = blen body /\
+    (match lookup (m_id (fst mt)) d with Some _ => 1 <= blen body | None => body = [] end) /\
+    (blen body <= B -> forall pre post c, blen pre = c_org c + 0 -> c_org c + 0 + blen body <= c_lim c ->
+       match lookup (m_id (fst mt)) d with
+       | Some v => des_ty V1 E (pre ++ body ++ post) (snd mt) c (c_org c + 0) = DOk v (c_org c + 0 + blen body)
+       | None => True
+       end)).
+  { destruct (lookup (m_id (fst mt)) d) as [v|] eqn:Hv.
+    - destruct (Hmem 0 ltac:(lia)) as [body [Eb [Mb Db]]].
+      exists body, (blen body). split; [|split; [reflexivity|split]].
+      + unfold ser_value. rewrite find_cvS by assumption. unfold get.  rewrite Hv. cbn [bind].
+        rewrite Eb. reflexivity.
+      + unfold msz in Mb. rewrite Hocc in Mb. exact Mb.
+      + intros. now apply Db.
+    - exists [], 0. repeat split; auto. }
+  destruct Hbody as [body [p3 [Eb [Hp3 [Hbl Db]]]]]. subst p3.
+  pose proof (blen_nonneg body) as Hbn.
+  set (L := wrap_u16 (blen body)).
+  destruct (rt_prim V1 E B KU16 L ltac:(unfold in_range, L, wrap_u16; apply andb_true_intro; split; [apply Z.leb_le|apply Z.ltb_lt]; lia)
+              (q + 2) ltac:(unfold q; lia)) as [b2 [E2 [_ D2]]].
+  assert (Hb2 : b2 = int_enc E 2 L).
+  { unfold ser_prim, ret in E2. rewrite even_align2 in E2 by lia. cbn [app prim_bytes sk_bytes] in E2.
+    injection E2; intros; congruence. }
+  exists (pad ++ b1 ++ b2 ++ body). split; [|split].
+  - unfold ser_mmember1.  rewrite find_cvS by assumption. cbv zeta. fold pid.
+    rewrite gtb_false by lia. fold pad. fold q. rewrite E1. cbn [bind]. rewrite Eb. cbn [bind].
+    rewrite Hb2. fold L. f_equal. f_equal. subst b1.
+    rewrite !blen_app, !int_enc_blen. unfold q. lia.
+  - subst b1 b2. rewrite !blen_app, !int_enc_blen. lia.
+  - subst b1 b2. rewrite !blen_app, !int_enc_blen. intros HBs pre post c Hpre Hlim.
+    unfold des_opt_fmember.
+    (* ALIGN(4) *)
+    unfold dec_align. replace (c_org c + pos - c_org c) with pos by lia.
+    change (Z.min 4 8) with 4. rewrite seek_ok by lia. cbn [dbind].
+    (* pid *)
+    replace (pre ++ (pad ++ int_enc E 2 pid ++ int_enc E 2 L ++ body) ++ post)
+      with ((pre ++ pad) ++ int_enc E 2 pid ++ (int_enc E 2 L ++ body ++ post))
+      by now rewrite <- !app_assoc.
+    replace (c_org c + pos + padlen pos 4) with (c_org c + q) by (unfold q; lia).
+    rewrite (D1 ltac:(rewrite int_enc_blen; lia) (pre ++ pad) _ c
+               ltac:(rewrite blen_app; unfold q; lia) ltac:(rewrite int_enc_blen; unfold q; lia)).
+    cbn [dbind]. rewrite int_enc_blen.
+    (* length *)
+    replace ((pre ++ pad) ++ int_enc E 2 pid ++ int_enc E 2 L ++ body ++ post)
+      with ((pre ++ pad ++ int_enc E 2 pid) ++ int_enc E 2 L ++ (body ++ post))
+      by now rewrite <- !app_assoc.
+    replace (c_org c + q + Z.of_nat 2) with (c_org c + (q + 2)) by lia.
+    rewrite (D2 ltac:(rewrite int_enc_blen; lia) (pre ++ pad ++ int_enc E 2 pid) _ c
+               ltac:(rewrite !blen_app, int_enc_blen; unfold q; lia)
+               ltac:(rewrite int_enc_blen; unfold q; lia)).
+    cbn [dbind]. rewrite int_enc_blen.
+    assert (HL : L = blen body) by (unfold L, wrap_u16; apply Z.mod_small; lia).
     destruct (lookup (m_id (fst mt)) d) as [v|] eqn:Hv.
-    + eapply rt_ext with (f := seq2 (ser_prim V2 E KBool 1) (ser_value (cvS V2 E ms) d (m_id (fst mt)))).
-      * intros pos. rewrite find_cvS by assumption. rewrite Hopt.
-        unfold ser_opt_fmember. rewrite Hv. reflexivity.
-      * intros buf pos. unfold des_opt_fmember. reflexivity.
-      * apply (rt_bind _ _ (fun buf => des_prim V2 E buf KBool)
-                 (fun b buf p => if b =? 1
-                    then des_value (fst mt, (snd mt, des_ty V2 E buf (snd mt))) acc p
-                    else DOk acc p) 1).
-        -- apply rt_prim. reflexivity.
-        -- change (1 =? 1) with true. cbv iota. now apply rt_value.
-    + eapply rt_ext with (f := ser_prim V2 E KBool 0).
-      * intros pos. rewrite find_cvS by assumption. rewrite Hopt.
-        unfold ser_opt_fmember. rewrite Hv. reflexivity.
-      * intros buf pos. unfold des_opt_fmember. reflexivity.
-      * intros pos Hpos.
-        destruct (rt_prim V2 E KBool 0 eq_refl pos Hpos) as [bs [E1 D1]].
-        exists bs. split; [exact E1|]. intros pre post Hpre. now rewrite (D1 pre post Hpre).
-  - destruct (lookup (m_id (fst mt)) d) as [v|] eqn:Hv; [|congruence].
-    eapply rt_ext with (f := ser_value (cvS V E ms) d (m_id (fst mt))).
-    + intros pos. rewrite find_cvS by assumption. now rewrite Hopt.
-    + reflexivity.
-    + now apply rt_value.
-Qed.
-
-Lemma rt_fmembers : forall V E ms d app ms2 acc, mem_hyp V E ms d -> incl ms2 ms ->
-  rt_ok (ser_list (fun mx : minfo * (ty * F) => ser_fmember V E (cvS V E ms) d (m_id (fst mx))) (cvS V E ms2))
-        (fun buf => des_fstruct V E buf app (cvD V E buf ms2) acc)
-        (ins ms2 d acc).
-Proof.
-  intros V E ms d app ms2 acc HH. revert acc.
-  induction ms2 as [|mt r IH]; intros acc Hincl.
-  - apply rt_nil.
-  - intros pos Hpos.
-    assert (Hin : In mt ms) by (apply Hincl; now left).
-    destruct (rt_fmember V E ms d mt acc HH Hin pos Hpos) as [b1 [E1 D1]].
-    pose proof (blen_nonneg b1).
-    set (acc' := match lookup (m_id (fst mt)) d with
-                 | Some v => insert (m_id (fst mt)) v acc | None => acc end) in *.
-    assert (Hincl' : incl r ms) by (intros x Hx; apply Hincl; now right).
-    destruct (IH acc' Hincl' (pos + blen b1) ltac:(lia)) as [b2 [E2 D2]].
-    exists (b1 ++ b2). split.
-    + cbn [cvS map ser_list fst]. rewrite E1. cbn [bind].
-      fold (cvS V E r). rewrite E2. cbn [bind]. rewrite blen_app. f_equal. f_equal. lia.
-    + intros pre post Hpre.
-      pose proof (D1 pre (b2 ++ post) Hpre) as D1'.
-      pose proof (D2 (pre ++ b1) post ltac:(rewrite blen_app; lia)) as D2'.
-      replace (pre ++ b1 ++ b2 ++ post) with (pre ++ (b1 ++ b2) ++ post) in D1'
+    + replace (L >? 0) with true by (symmetry; rewrite Z.gtb_ltb; apply Z.ltb_lt; lia).
+      unfold des_value. cbn [fst snd]. 
+      replace ((pre ++ pad ++ int_enc E 2 pid) ++ int_enc E 2 L ++ body ++ post)
+        with ((pre ++ pad ++ int_enc E 2 pid ++ int_enc E 2 L) ++ body ++ post)
         by now rewrite <- !app_assoc.
-      replace ((pre ++ b1) ++ b2 ++ post) with (pre ++ (b1 ++ b2) ++ post) in D2'
-        by now rewrite <- !app_assoc.
-      set (buf := pre ++ (b1 ++ b2) ++ post) in *.
-      cbn [cvD map des_fstruct]. rewrite D1'.
-      change (map (fun mt0 : minfo * ty => (fst mt0, (snd mt0, des_ty V E buf (snd mt0)))) r)
-        with (cvD V E buf r).
-      subst acc'. rewrite blen_app.
-      replace (pos + (blen b1 + blen b2)) with (pos + blen b1 + blen b2) by lia.
-      unfold ins in *. cbn [fold_left]. exact D2'.
-Qed.
-
-Lemma rt_struct : forall V E ms d x, mem_hyp V E ms d -> x <> Mutable ->
-  rt_ok (ser_struct_nested V E x (cvS V E ms) d)
-        (fun buf => des_struct_nested V E buf x (cvD V E buf ms))
-        (ins ms d []).
-Proof.
-  intros V E ms d x HH Hx. destruct x; [| |congruence]; unfold ser_struct_nested, des_struct_nested.
-  - apply (rt_fmembers V E ms d false ms [] HH). apply incl_refl.
-  - unfold ser_appendable. destruct V.
-    + apply (rt_fmembers V1 E ms d true ms [] HH). apply incl_refl.
-    + apply (rt_dheader_ignore V2 E _
-               (fun buf => des_fstruct V2 E buf true (cvD V2 E buf ms) [])).
-      apply (rt_fmembers V2 E ms d true ms [] HH). apply incl_refl.
-Qed.
-
-
-(* ------------------------------------------------------------------ collections *)
-Lemma rt_prim_elems : forall V E k l,
-  forallb (in_range k) l = true ->
-  rt_ok (ser_list (ser_prim V E k) l) (fun buf => des_z (des_prim V E buf k) (blen l)) l.
-Proof.
-  intros V E k l Hr.
-  apply rt_list_id; [reflexivity|].
-  intros z Hz. rewrite forallb_forall in Hr. apply rt_prim. now apply Hr.
-Qed.
-
-Lemma rt_elements : forall V E e (w : val -> bool) fe fu (ge : list Z -> G) v,
-  elem_ok e = true -> is_union e = false ->
-  elems_wt e w v = true ->
-  (forall d, w (VData d) = true -> rt_ok (fe (VData d)) ge (VData d)) ->
-  rt_ok (ser_elements V E e fe fu v) (fun buf => des_elements V E buf e (ge buf) (seq_length v)) v.
-Proof.
-  intros V E e w fe fu ge v Hok Hnu Hw Hfe.
-  destruct e as [p| | |h ls|e'|n e'|x ms|x dd cs]; try discriminate; cbn [elems_wt] in Hw.
-  - (* primitive elements *)
-    destruct v as [| | |k l| |]; try discriminate.
-    apply andb_prop in Hw as [Hk Hr]. apply sk_eqb_eq in Hk. subst k.
-    cbn [seq_length].
-    assert (Hgen : rt_ok (ser_list (ser_prim V E (prim_sk p)) l)
-              (fun buf pos => dbind (des_z (des_prim V E buf (prim_sk p)) (blen l) pos)
-                                    (fun l' p' => DOk (VSeqP (prim_sk p) l') p'))
-              (VSeqP (prim_sk p) l)).
-    { apply (rt_map _ _ l (VSeqP (prim_sk p))). now apply rt_prim_elems. }
-    assert (Hraw : rt_ok (ret l)
-              (fun buf pos => dbind (read_bytes buf pos (blen l)) (fun bs p' => DOk (VSeqP KU8 bs) p'))
-              (VSeqP KU8 l)).
-    { apply (rt_map _ _ l (VSeqP KU8)). apply rt_raw. }
-    destruct p; cbn [ser_elements des_elements prim_sk sk_eqb] in *; first [exact Hraw | exact Hgen].
-  - destruct v as [| | | |l|]; try discriminate. cbn [ser_elements des_elements seq_length].
-    apply (rt_map _ _ l VSeqStr).
-    apply rt_list_id; [reflexivity|].
-    intros s Hs. rewrite forallb_forall in Hw. apply rt_string. now apply Hw.
-  - destruct v as [| | | |l|]; try discriminate. cbn [ser_elements des_elements seq_length].
-    apply (rt_map _ _ l VSeqStr).
-    apply rt_list_id; [reflexivity|].
-    intros s Hs. rewrite forallb_forall in Hw. apply rt_wstring. now apply Hw.
-  - destruct v as [| | | | |l]; try discriminate. cbn [ser_elements des_elements seq_length].
-    apply (rt_map _ _ l VSeqData).
-    apply rt_list_id; [reflexivity|].
-    intros d Hd. rewrite forallb_forall in Hw.
-    pose proof (Hfe d (Hw d Hd)) as Hrt.
-    intros pos Hpos. destruct (Hrt pos Hpos) as [bs [E1 D1]].
-    exists bs. split; [exact E1|]. intros pre post Hpre. unfold undata. now rewrite (D1 pre post Hpre).
-  - destruct v as [| | | | |l]; try discriminate. cbn [ser_elements des_elements seq_length].
-    apply (rt_map _ _ l VSeqData).
-    apply rt_list_id; [reflexivity|].
-    intros d Hd. rewrite forallb_forall in Hw.
-    pose proof (Hfe d (Hw d Hd)) as Hrt.
-    intros pos Hpos. destruct (Hrt pos Hpos) as [bs [E1 D1]].
-    exists bs. split; [exact E1|]. intros pre post Hpre. unfold undata. now rewrite (D1 pre post Hpre).
-Qed.
-
-Lemma seq_length_nonneg : forall v, 0 <= seq_length v.
-Proof. destruct v; cbn [seq_length]; try lia; try apply blen_nonneg. Qed.
-
-Lemma rt_sequence : forall V E e fe fu (ge : list Z -> G) v,
-  seq_length v <= u32_max ->
-  rt_ok (ser_elements V E e fe fu v) (fun buf => des_elements V E buf e (ge buf) (seq_length v)) v ->
-  rt_ok (ser_sequence V E e fe fu v) (fun buf => des_sequence V E buf e (ge buf)) v.
-Proof.
-  intros V E e fe fu ge v Hlen Hel.
-  pose proof (seq_length_nonneg v) as Hnn.
-  assert (Hbody : rt_ok (seq2 (ser_length V E v) (ser_elements V E e fe fu v))
-            (fun buf pos => dbind (des_prim V E buf KU32 pos)
-                                  (fun len p => des_elements V E buf e (ge buf) len p)) v).
-  { apply (rt_bind _ _ (fun buf => des_prim V E buf KU32)
-             (fun len buf p => des_elements V E buf e (ge buf) len p) (seq_length v) v).
-    - unfold ser_length.
-      replace (wrap_u32 (seq_length v)) with (seq_length v)
-        by (unfold wrap_u32, two32; symmetry; apply Z.mod_small; unfold u32_max in *; lia).
-      apply rt_u32. lia.
-    - exact Hel. }
-  unfold ser_sequence, des_sequence. cbv zeta.
-  destruct (is_prim_ty e); [exact Hbody|].
-  destruct V; [exact Hbody|].
-  apply (rt_dheader V2 E _
-           (fun buf pos => dbind (des_prim V2 E buf KU32 pos)
-                                 (fun len p => des_elements V2 E buf e (ge buf) len p))).
-  exact Hbody.
-Qed.
-
-Lemma rt_array : forall V E n e fe fu (ge : list Z -> G) v,
-  seq_length v = n ->
-  rt_ok (ser_elements V E e fe fu v) (fun buf => des_elements V E buf e (ge buf) (seq_length v)) v ->
-  rt_ok (ser_array V E e fe fu v) (fun buf => des_array V E buf n e (ge buf)) v.
-Proof.
-  intros V E n e fe fu ge v Hlen Hel. subst n.
-  unfold ser_array, des_array.
-  destruct (is_prim_ty e); [exact Hel|].
-  destruct V; [exact Hel|].
-  apply (rt_dheader V2 E _ (fun buf => des_elements V2 E buf e (ge buf) (seq_length v))).
-  exact Hel.
-Qed.
-
-(* ------------------------------------------------------------------ the main induction *)
-Lemma tgood_members : forall V ms,
-  (fix go (ms : list (minfo * ty)) : bool :=
-     match ms with [] => true | (m, t') :: r => wf_ty t' && go r end) ms = true ->
-  (fix go (ms : list (minfo * ty)) : bool :=
-     match ms with [] => false | (_, t') :: r => ty_any (tbad V) t' || go r end) ms = false ->
-  Forall (fun mt => tgood V (snd mt) = true) ms.
-Proof.
-  induction ms as [|[m t] r IH]; intros H1 H2; [constructor|].
-  apply andb_prop in H1 as [H1a H1b]. apply orb_false_elim in H2 as [H2a H2b].
-  constructor; [|now apply IH]. cbn [snd]. unfold tgood. now rewrite H1a, H2a.
-Qed.
-
-Lemma tgood_struct : forall V x ms, tgood V (TStruct x ms) = true ->
-  nodup_z (ids ms) = true /\ tbad V (TStruct x ms) = false /\
-  Forall (fun mt => tgood V (snd mt) = true) ms.
-Proof.
-  intros V x ms H. unfold tgood in H. apply andb_prop in H as [Hw Ha].
-  apply negb_true_iff in Ha. cbn [wf_ty ty_any] in Hw, Ha.
-  apply orb_false_elim in Ha as [Hb Hg].
-  apply andb_prop in Hw as [Hw Hg']. apply andb_prop in Hw as [Hnd _].
-  repeat split; try assumption. now apply tgood_members.
-Qed.
-
-Lemma tgood_elem : forall V e, wf_ty e = true -> ty_any (tbad V) e = false -> tgood V e = true.
-Proof. intros. unfold tgood. now rewrite H, H0. Qed.
-
-Lemma wt_members : forall d ms,
-  (fix go (ms : list (minfo * ty)) : bool :=
-     match ms with
-     | [] => true
-     | (m, t') :: r =>
-       (match lookup (m_id m) d with Some v' => wt t' v' | None => m_opt m end) && go r
-     end) ms = true ->
-  Forall (fun mt : minfo * ty =>
-            match lookup (m_id (fst mt)) d with
-            | Some v' => wt (snd mt) v' = true
-            | None => m_opt (fst mt) = true
-            end) ms.
-Proof.
-  induction ms as [|[m t] r IH]; intros H; [constructor|].
-  apply andb_prop in H as [H1 H2]. constructor; [|now apply IH].
-  cbn [fst snd]. destruct (lookup (m_id m) d); exact H1.
-Qed.
-
-Lemma ty_any_self : forall p t, ty_any p t = false -> p t = false.
-Proof. intros p t H. destruct t; cbn [ty_any] in H; apply orb_false_elim in H; tauto. Qed.
-
-Lemma ser_ty_seq : forall V E e, exists fu, ser_ty V E (TSeq e) = ser_sequence V E e (ser_ty V E e) fu.
-Proof. intros. eexists. reflexivity. Qed.
-Lemma ser_ty_arr : forall V E n e, exists fu, ser_ty V E (TArr n e) = ser_array V E e (ser_ty V E e) fu.
-Proof. intros. eexists. reflexivity. Qed.
-
-Theorem rt_ty : forall V E t, tgood V t = true ->
-  forall v, wt t v = true ->
-  rt_ok (ser_ty V E t v) (fun buf => des_ty V E buf t) v.
-Proof.
-  intros V E t. induction t using ty_ind'; intros Hg v Hw.
-  - (* primitive *)
-    cbn [wt] in Hw. destruct v as [k z| | | | |]; try discriminate.
-    apply andb_prop in Hw as [Hk Hr]. pose proof (sk_eqb_eq _ _ Hk) as ->.
-    cbn [ser_ty des_ty]. rewrite sk_eqb_refl.
-    apply (rt_map _ _ z (VP (prim_sk p))). now apply rt_prim.
-  - cbn [wt] in Hw. destruct v as [|s| | | |]; try discriminate. cbn [ser_ty des_ty].
-    apply (rt_map _ _ s VStr). now apply rt_string.
-  - cbn [wt] in Hw. destruct v as [|s| | | |]; try discriminate. cbn [ser_ty des_ty].
-    apply (rt_map _ _ s VStr). now apply rt_wstring.
-  - (* enumeration *)
-    assert (Hh : holder_ok h = true).
-    { unfold tgood in Hg. apply andb_prop in Hg as [Hg _]. cbn [wf_ty] in Hg. now apply andb_prop in Hg as [Hg _]. }
-    destruct v as [| |d| | |]; try (cbn [wt] in Hw; discriminate).
-    cbn [ser_ty des_ty on_data]. unfold as_data.
-    apply (rt_map _ _ d VData). now apply rt_enum.
-  - (* sequence *)
-    unfold tgood in Hg. apply andb_prop in Hg as [Hwf Ha]. apply negb_true_iff in Ha.
-    cbn [wf_ty] in Hwf. apply andb_prop in Hwf as [Hok Hwfe].
-    cbn [ty_any] in Ha. apply orb_false_elim in Ha as [_ Hae].
-    pose proof (tgood_elem V t Hwfe Hae) as Hge.
-    cbn [wt] in Hw. apply andb_prop in Hw as [Hel Hlen]. apply Z.leb_le in Hlen.
-    destruct (ser_ty_seq V E t) as [fu ->]. cbn [des_ty].
-    apply rt_sequence; [exact Hlen|].
-    pose proof (ty_any_self _ _ Hae) as Hb. unfold tbad in Hb.
-    apply orb_false_elim in Hb as [Hb Hb3]. apply orb_false_elim in Hb as [Hb1 Hb2].
-    apply (rt_elements V E t (wt t)); try assumption.
-    + intros d Hwd. now apply IHt.
-  - (* array *)
-    unfold tgood in Hg. apply andb_prop in Hg as [Hwf Ha]. apply negb_true_iff in Ha.
-    cbn [wf_ty] in Hwf. apply andb_prop in Hwf as [Hwf _]. apply andb_prop in Hwf as [Hwf _].
-    apply andb_prop in Hwf as [Hok Hwfe].
-    cbn [ty_any] in Ha. apply orb_false_elim in Ha as [_ Hae].
-    pose proof (tgood_elem V t Hwfe Hae) as Hge.
-    cbn [wt] in Hw. apply andb_prop in Hw as [Hel Hlen]. apply Z.eqb_eq in Hlen.
-    destruct (ser_ty_arr V E n t) as [fu ->]. cbn [des_ty].
-    apply rt_array; [exact Hlen|].
-    pose proof (ty_any_self _ _ Hae) as Hb. unfold tbad in Hb.
-    apply orb_false_elim in Hb as [Hb Hb3]. apply orb_false_elim in Hb as [Hb1 Hb2].
-    apply (rt_elements V E t (wt t)); try assumption.
-    + intros d Hwd. now apply IHt.
-  - (* structure *)
-    destruct (tgood_struct V x ms Hg) as [Hnd [Hb Hgm]].
-    destruct v as [| |d| | |]; try (cbn [wt] in Hw; discriminate).
-    cbn [wt] in Hw. apply andb_prop in Hw as [Hw Hgo]. apply andb_prop in Hw as [Hs Hk].
-    apply wt_members in Hgo.
-    unfold tbad in Hb. apply orb_false_elim in Hb as [Hb Hb3]. apply orb_false_elim in Hb as [_ Hmut].
-    assert (Hx : x <> Mutable) by (intros ->; discriminate).
-    assert (HH : mem_hyp V E ms d).
-    { split; [exact Hnd|]. split.
-      - intros ->. pose proof Hb3 as Ho. cbn [has_opt_member] in Ho.
-        apply Forall_forall. intros mt Hin.
-        destruct (m_opt (fst mt)) eqn:Hm; [|reflexivity].
-        assert (existsb (fun mx : minfo * ty => m_opt (fst mx)) ms = true)
-          by (apply existsb_exists; now exists mt).
-        congruence.
-      - rewrite Forall_forall in *. intros mt Hin.
-        specialize (H mt Hin). specialize (Hgm mt Hin). specialize (Hgo mt Hin).
-        destruct (lookup (m_id (fst mt)) d) as [v'|] eqn:Hl; [|exact Hgo].
-        apply H; [exact Hgm|exact Hgo]. }
-    rewrite ser_ty_struct. cbn [on_data].
-    eapply rt_ext with (df := fun buf pos =>
-      dbind (des_struct_nested V E buf x (cvD V E buf ms) pos) (fun d' p => DOk (VData d') p)).
-    + reflexivity.
-    + intros. now rewrite des_ty_struct.
-    + pose proof (rt_map _ _ (ins ms d []) VData (rt_struct V E ms d x HH Hx)) as Hr.
-      rewrite (ins_eq ms d Hs Hk) in Hr. exact Hr.
-  - (* union: outside S1/S2 *)
-    exfalso. unfold tgood in Hg. apply andb_prop in Hg as [_ Hg]. apply negb_true_iff in Hg.
-    apply ty_any_self in Hg. discriminate.
-Qed.
-
-(* ------------------------------------------------------------------ top level *)
-Lemma dispatch_ok : forall V E x,
-  (let b1 := repr_id V E x in
-   if 0 =? 0 then
-     if (b1 =? 0) || (b1 =? 2) then Ok (V1, BE)
-     else if (b1 =? 1) || (b1 =? 3) then Ok (V1, LE)
-     else if (b1 =? 6) || (b1 =? 8) || (b1 =? 10) then Ok (V2, BE)
-     else if (b1 =? 7) || (b1 =? 9) || (b1 =? 11) then Ok (V2, LE)
-     else Err E_DATA
-   else Err E_DATA) = Ok (V, E).
-Proof. destruct V, E, x; reflexivity. Qed.
-
-Lemma pad_count_range : forall n, 0 <= pad_count n <= 3.
-Proof. intros. unfold pad_count. lia. Qed.
-
-(* shape of every successful serialization: header with the padding count in the options
-   byte, body, that many zero bytes; total length a multiple of 4 *)
-Theorem encode_shape : forall V E t v bs, encode V E t v = Ok bs ->
-  exists body p n,
-    ser_ty V E t v 0 = Ok (body, p) /\
-    n = pad_count (4 + blen body) /\ 0 <= n <= 3 /\
-    bs = [0; repr_id V E (ty_ext t); 0; n] ++ body ++ zeros n /\
-    blen bs mod 4 = 0 /\ nth 3 bs 0 = n.
-Proof.
-  intros V E t v bs H. unfold encode in H.
-  destruct (is_aggr t); [|discriminate].
-  destruct (ser_ty V E t v 0) as [[body p]| |] eqn:Hs; try discriminate.
-  cbn [bind] in H. inversion H as [Hbs]. clear H.
-  exists body, p, (pad_count (4 + blen body)).
-  assert (Hb : blen (0 :: repr_id V E (ty_ext t) :: 0 :: 0 :: body) = 4 + blen body).
-  { rewrite !blen_cons. lia. }
-  cbn [app set_nth3]. rewrite !Hb. pose proof (pad_count_range (4 + blen body)) as Hr.
-  repeat split; try lia.
-  rewrite !blen_cons, blen_app, blen_zeros by lia.
-  pose proof (blen_nonneg body). unfold pad_count in *. lia.
-Qed.
-
-Theorem roundtrip_tgood : forall V E t v,
-  is_aggr t = true -> tgood V t = true -> wt t v = true ->
-  exists bs, encode V E t v = Ok bs /\ decode t bs = Ok v.
-Proof.
-  intros V E t v Ha Hg Hw.
-  destruct (rt_ty V E t Hg v Hw 0 ltac:(lia)) as [body [E1 D1]].
-  unfold encode. rewrite Ha, E1. cbn [bind].
-  set (n := pad_count (blen ([0; repr_id V E (ty_ext t); 0; 0] ++ body))).
-  eexists. split; [reflexivity|].
-  cbn [app set_nth3]. unfold decode.
-  replace (blen (0 :: repr_id V E (ty_ext t) :: 0 :: n :: body ++ zeros n) <? 4) with false.
-  2:{ symmetry. apply Z.ltb_ge. rewrite !blen_cons. pose proof (blen_nonneg (body ++ zeros n)). lia. }
-  pose proof (dispatch_ok V E (ty_ext t)) as Hd. cbv zeta in Hd. rewrite Hd. cbn [bind]. rewrite Ha.
-  specialize (D1 [] (zeros n) eq_refl). cbn [app] in D1. rewrite D1. reflexivity.
-Qed.
-
-(* ------------------------------------------------------------------ classes *)
-From Coq Require Import Btauto.
-
-Lemma ty_any_ext : forall p q, (forall t, p t = q t) -> forall t, ty_any p t = ty_any q t.
-Proof.
-  intros p q Hpq t. induction t using ty_ind'; cbn [ty_any]; rewrite Hpq; try reflexivity;
-    try (now rewrite IHt).
-  - f_equal. induction H as [|[m t'] r Hx Hr IH]; [reflexivity|]. cbn [snd] in Hx. now rewrite Hx, IH.
-  - rewrite IHt. f_equal. f_equal.
-    induction H as [|[m t'] r Hx Hr IH]; [reflexivity|]. cbn [snd] in Hx. now rewrite Hx, IH.
-Qed.
-
-Lemma ty_any_or : forall p q t,
-  ty_any (fun t => p t || q t) t = ty_any p t || ty_any q t.
-Proof.
-  intros p q t. induction t using ty_ind'; cbn [ty_any]; try btauto.
-  - rewrite IHt. btauto.
-  - rewrite IHt. btauto.
-  - assert (Hgo :
-      (fix go (ms : list (minfo * ty)) : bool :=
-         match ms with [] => false | (_, t') :: r => ty_any (fun t => p t || q t) t' || go r end) ms =
-      (fix go (ms : list (minfo * ty)) : bool :=
-         match ms with [] => false | (_, t') :: r => ty_any p t' || go r end) ms ||
-      (fix go (ms : list (minfo * ty)) : bool :=
-         match ms with [] => false | (_, t') :: r => ty_any q t' || go r end) ms).
-    { induction H as [|[m t'] r Hx Hr IH]; [reflexivity|]. cbn [snd] in Hx. rewrite Hx, IH. btauto. }
-    rewrite Hgo. btauto.
-  - assert (Hgo :
-      (fix go (ms : list (minfo * ty)) : bool :=
-         match ms with [] => false | (_, t') :: r => ty_any (fun t => p t || q t) t' || go r end) cs =
-      (fix go (ms : list (minfo * ty)) : bool :=
-         match ms with [] => false | (_, t') :: r => ty_any p t' || go r end) cs ||
-      (fix go (ms : list (minfo * ty)) : bool :=
-         match ms with [] => false | (_, t') :: r => ty_any q t' || go r end) cs).
-    { induction H as [|[m t'] r Hx Hr IH]; [reflexivity|]. cbn [snd] in Hx. rewrite Hx, IH. btauto. }
-    rewrite Hgo, IHt. btauto.
-Qed.
-
-Lemma ty_any_mono : forall p q, (forall t, q t = true -> p t = true) ->
-  forall t, ty_any p t = false -> ty_any q t = false.
-Proof.
-  intros p q Hpq.
-  assert (Hqf : forall t0, p t0 = false -> q t0 = false).
-  { intros t0 Hp. destruct (q t0) eqn:Hq; [apply Hpq in Hq; congruence|reflexivity]. }
-  intros t. induction t using ty_ind'; cbn [ty_any]; intros Hf;
-    apply orb_false_elim in Hf as [Hf1 Hf2]; rewrite (Hqf _ Hf1); cbn [orb];
-    try reflexivity; try (now apply IHt).
-  - clear Hf1. revert Hf2. induction H as [|[m t'] r Hx Hr IH]; intros Hf2; [reflexivity|]. cbn [snd] in Hx.
-    apply orb_false_elim in Hf2 as [Ha Hb]. now rewrite (Hx Ha), (IH Hb).
-  - apply orb_false_elim in Hf2 as [Hd Hc]. rewrite IHt by assumption. cbn [orb].
-    clear Hf1. revert Hc. induction H as [|[m t'] r Hx Hr IH]; intros Hc; [reflexivity|]. cbn [snd] in Hx.
-    apply orb_false_elim in Hc as [Ha Hb]. now rewrite (Hx Ha), (IH Hb).
-Qed.
-
-Lemma ty_any_false : forall t, ty_any (fun _ => false) t = false.
-Proof.
-  induction t using ty_ind'; cbn [ty_any orb]; try reflexivity; try assumption.
-  - induction H as [|[m t'] r Hx Hr IH]; [reflexivity|]. cbn [snd] in Hx. now rewrite Hx, IH.
-  - rewrite IHt. cbn [orb].
-    induction H as [|[m t'] r Hx Hr IH]; [reflexivity|]. cbn [snd] in Hx. now rewrite Hx, IH.
-Qed.
-
-Lemma known0_tgood : forall V t v,
-  wf_ty t = true -> known_class V t v = 0%N -> tgood V t = true.
-Proof.
-  intros V t v Hwf Hk. unfold known_class in Hk.
-  unfold tgood. rewrite Hwf. cbn [andb]. apply negb_true_iff.
-  destruct V; cbn [andb] in Hk.
-  - destruct (ty_any has_opt_member t) eqn:H2; [discriminate|].
-    destruct (stage2 t) eqn:H3; [|discriminate]. unfold stage2 in H3. apply negb_true_iff in H3.
-    rewrite (ty_any_ext (tbad V1)
-               (fun t => (fun t => is_union t || is_mutable t) t || has_opt_member t))
-      by reflexivity.
-    now rewrite ty_any_or, H3, H2.
-  - destruct (stage2 t) eqn:H3; [|discriminate]. unfold stage2 in H3. apply negb_true_iff in H3.
-    rewrite (ty_any_ext (tbad V2)
-               (fun t => (fun t => is_union t || is_mutable t) t || (fun _ => false) t))
-      by reflexivity.
-    rewrite ty_any_or, H3, ty_any_false. reflexivity.
-Qed.
-
-Lemma stage1_stage2 : forall t, stage1 t = true -> stage2 t = true.
-Proof.
-  intros t H. unfold stage1, stage2 in *. apply negb_true_iff in H. apply negb_true_iff.
-  revert H. apply ty_any_mono. intros t0 Hq.
-  destruct t0 as [| | | | | |x ms|x dd cs]; try discriminate; cbn in *.
-  - destruct x; try discriminate; reflexivity.
-  - reflexivity.
-Qed.
-
-(* the statement of C09 outside the recorded classes: for every well-formed type and every
-   well-typed value that is in no known-finding class, all four encodings round-trip *)
-Theorem roundtrip_outside_known : forall V E t v,
-  is_aggr t = true -> wf_ty t = true -> wt t v = true -> known_class V t v = 0%N ->
-  exists bs, encode V E t v = Ok bs /\ decode t bs = Ok v.
-Proof.
-  intros V E t v Ha Hwf Hw Hk. pose proof (known0_tgood V t v Hwf Hk) as Hg.
-  now apply roundtrip_tgood.
-Qed.
-
-Theorem roundtrip_S2 : forall V E t v,
-  is_aggr t = true -> wf_ty t = true -> stage2 t = true -> wt t v = true ->
-  known_class V t v = 0%N ->
-  exists bs, encode V E t v = Ok bs /\ decode t bs = Ok v.
-Proof. intros. now apply roundtrip_outside_known. Qed.
-
-(* in stage 1 no recorded class can occur *)
-Lemma stage1_known : forall V t v, stage1 t = true -> known_class V t v = 0%N.
-Proof.
-  intros V t v H1. pose proof (stage1_stage2 t H1) as H2.
-  unfold known_class. rewrite H2. cbn [negb].
-  assert (Ho : ty_any has_opt_member t = false).
-  { unfold stage1 in H1. apply negb_true_iff in H1. revert H1. apply ty_any_mono.
-    intros t0 Hq. rewrite Hq. now rewrite orb_true_r. }
-  rewrite Ho. now destruct V.
-Qed.
-
-Theorem roundtrip_S1 : forall V E t v,
-  is_aggr t = true -> wf_ty t = true -> stage1 t = true -> wt t v = true ->
-  exists bs, encode V E t v = Ok bs /\ decode t bs = Ok v.
-Proof. intros. apply roundtrip_outside_known; try assumption. now apply stage1_known. Qed.
-
-(* ------------------------------------------------------------------ witnesses *)
-Definition mk (id : Z) : minfo := mkM id false false false false [].
-Definition mko (id : Z) : minfo := mkM id true false false false [].
-
-Definition refutes (V : ver) (E : endian) (t : ty) (v : val) (k : N) : Prop :=
-  is_aggr t = true /\ wf_ty t = true /\ wt t v = true /\ known_class V t v = k /\
-  exists bs, encode V E t v = Ok bs /\ decode t bs <> Ok v.
-
-Ltac wit :=
-  unfold refutes; do 4 (split; [vm_compute; reflexivity|]);
-  eexists; split; [vm_compute; reflexivity|vm_compute; discriminate].
-
-(* class 3: {@optional long 5; long 77} in XCDR1 *)
-Lemma witness_optional_xcdr1 :
-  refutes V1 LE (TStruct Final [(mko 0, TPrim PI32); (mk 1, TPrim PI32)])
-          (VData [(0, VP KI32 5); (1, VP KI32 77)]) 3.
-Proof. wit. Qed.
-
-(* class 4 (D26): mutable {sequence<long> [7;1]; long 77} in XCDR2: EMHEADER LC = 5 *)
-Lemma witness_lc5_sequence :
-  refutes V2 LE (TStruct Mutable [(mk 0, TSeq (TPrim PI32)); (mk 1, TPrim PI32)])
-          (VData [(0, VSeqP KI32 [7; 1]); (1, VP KI32 77)]) 4.
-Proof. wit. Qed.
-
-(* class 4: final {mutable {long 5}; long 77} in XCDR2: the nested mutable struct is not skipped *)
-Lemma witness_nested_mutable :
-  refutes V2 LE (TStruct Final [(mk 0, TStruct Mutable [(mk 0, TPrim PI32)]); (mk 1, TPrim PI32)])
-          (VData [(0, VData [(0, VP KI32 5)]); (1, VP KI32 77)]) 4.
-Proof. wit. Qed.
-
-(* class 4: mutable {uint64 9} in XCDR1: alignment origin of the parameter value *)
-Lemma witness_xcdr1_mutable_align :
-  refutes V1 LE (TStruct Mutable [(mk 0, TPrim PU64)]) (VData [(0, VP KU64 9)]) 4.
-Proof. wit. Qed.
-
-(* class 4: final {appendable union (case 10: octet 3); octet 4} in XCDR1: no DHEADER written, one read *)
-Lemma witness_appendable_union_xcdr1 :
-  refutes V1 LE
-    (TStruct Final [(mk 0, TUnion Appendable (TPrim PI32) [(mkM 1 false false false false [10], TPrim PU8)]);
-                    (mk 1, TPrim PU8)])
-    (VData [(0, VData [(0, VP KI32 10); (1, VP KU8 3)]); (1, VP KU8 4)]) 4.
-Proof. wit. Qed.
-
-(* class 4: sequence of appendable unions in XCDR2: elements written as FINAL unions *)
-Lemma witness_union_sequence :
-  refutes V2 LE
-    (TStruct Final [(mk 0, TSeq (TUnion Appendable (TPrim PI32) [(mkM 1 false false false false [10], TPrim PU8)]))])
-    (VData [(0, VSeqData [[(0, VP KI32 10); (1, VP KU8 3)]])]) 4.
-Proof. wit. Qed.
-
-(* the inputs of the two repaired defects (former classes 1 and 2) now round-trip *)
-Lemma regression_char8_float128 :
-  (let t := TStruct Final [(mk 0, TPrim PChar8); (mk 1, TPrim PU8)] in
-   let v := VData [(0, VP KChar8 233); (1, VP KU8 9)] in
-   exists bs, encode V1 LE t v = Ok bs /\ decode t bs = Ok v) /\
-  (let t := TStruct Final [(mk 0, TPrim PU64); (mk 1, TPrim PF128)] in
-   let v := VData [(0, VP KU64 7); (1, VP KF128 9)] in
-   exists bs, encode V1 LE t v = Ok bs /\ decode t bs = Ok v).
-Proof.
-  split; cbv zeta; eexists; (split; [vm_compute; reflexivity|vm_compute; reflexivity]).
-Qed.
-
-(* non-vacuity of the round-trip theorems: a nested S2 value in no class *)
-Definition ex_ty : ty :=
-  TStruct Appendable
-    [(mk 0, TPrim PU8); (mko 1, TPrim PU64); (mk 2, TStr); (mk 3, TSeq (TPrim PI16));
-     (mk 4, TArr 2 (TStruct Final [(mk 0, TEnum PI32 [0; 5]); (mk 1, TWStr)]))].
-Definition ex_val : val :=
-  VData [(0, VP KU8 7); (1, VP KU64 9); (2, VStr [104; 233; 8364]); (3, VSeqP KI16 [-1; 300]);
-         (4, VSeqData [[(0, VData [(0, VP KI32 5)]); (1, VStr [128512])];
-                       [(0, VData [(0, VP KI32 0)]); (1, VStr [])]])].
-Lemma ex_nonvacuous :
-  is_aggr ex_ty = true /\ wf_ty ex_ty = true /\ stage2 ex_ty = true /\ wt ex_ty ex_val = true /\
-  known_class V2 ex_ty ex_val = 0%N /\
-  (exists bs, encode V2 BE ex_ty ex_val = Ok bs /\ decode ex_ty bs = Ok ex_val).
-Proof.
-  do 5 (split; [vm_compute; reflexivity|]).
-  eexists. split; [vm_compute; reflexivity|vm_compute; reflexivity].
-Qed.
-
-(* ------------------------------------------------------------------ oracle soundness *)
-Section ValInd.
-Variable P : val -> Prop.
-Hypothesis HP : forall k z, P (VP k z).
-Hypothesis HS : forall s, P (VStr s).
-Hypothesis HD : forall d, Forall (fun kv => P (snd kv)) d -> P (VData d).
-Hypothesis HQ : forall k l, P (VSeqP k l).
-Hypothesis HQS : forall l, P (VSeqStr l).
-Hypothesis HQD : forall l, Forall (Forall (fun kv => P (snd kv))) l -> P (VSeqData l).
-Fixpoint val_ind' (v : val) : P v :=
-  match v with
-  | VP k z => HP k z
-  | VStr s => HS s
-  | VData d =>
-    HD d ((fix go (d : list (Z * val)) : Forall (fun kv => P (snd kv)) d :=
-             match d with
-             | [] => Forall_nil _
-             | kv :: r => Forall_cons kv (val_ind' (snd kv)) (go r)
-             end) d)
-  | VSeqP k l => HQ k l
-  | VSeqStr l => HQS l
-  | VSeqData l =>
-    HQD l ((fix gol (l : list (list (Z * val))) : Forall (Forall (fun kv => P (snd kv))) l :=
-              match l with
-              | [] => Forall_nil _
-              | d :: r =>
-                Forall_cons d
-                  ((fix go (d : list (Z * val)) : Forall (fun kv => P (snd kv)) d :=
-                      match d with
-                      | [] => Forall_nil _
-                      | kv :: q => Forall_cons kv (val_ind' (snd kv)) (go q)
-                      end) d) (gol r)
-              end) l)
-  end.
-End ValInd.
-
-Lemma list_eqb_eq : forall {A} (eq : A -> A -> bool),
-  (forall x y, eq x y = true <-> x = y) -> forall a b, list_eqb eq a b = true <-> a = b.
-Proof.
-  intros A eq Heq. induction a as [|x r IH]; destruct b as [|y s]; cbn [list_eqb]; split; intros H;
-    try reflexivity; try discriminate.
-  - apply andb_prop in H as [H1 H2]. apply Heq in H1. apply IH in H2. congruence.
-  - inversion H. subst. apply andb_true_intro. split; [now apply Heq|now apply IH].
-Qed.
-Lemma zlist_eqb_eq : forall a b : list Z, list_eqb Z.eqb a b = true <-> a = b.
-Proof. apply list_eqb_eq. intros. apply Z.eqb_eq. Qed.
-
-Definition dyn_eqb (d d' : list (Z * val)) : bool :=
-  (fix go (d d' : list (Z * val)) : bool :=
-     match d, d' with
-     | [], [] => true
-     | (k, v) :: r, (k', v') :: r' => (k =? k') && val_eqb v v' && go r r'
-     | _, _ => false
-     end) d d'.
-
-Lemma dyn_eqb_eq : forall d, Forall (fun kv => forall b, val_eqb (snd kv) b = true <-> snd kv = b) d ->
-  forall d', dyn_eqb d d' = true <-> d = d'.
-Proof.
-  induction d as [|[k v] r IH]; intros HF d'; destruct d' as [|[k' v'] r']; unfold dyn_eqb in *; split; intros H;
-    try reflexivity; try discriminate.
-  - inversion HF as [|? ? Hv Hr]. subst. cbn [snd] in Hv.
-    apply andb_prop in H as [H H3]. apply andb_prop in H as [H1 H2].
-    apply Z.eqb_eq in H1. apply Hv in H2. apply (IH Hr) in H3. congruence.
-  - inversion HF as [|? ? Hv Hr]. subst. cbn [snd] in Hv. inversion H. subst.
-    rewrite Z.eqb_refl. cbn [andb]. apply andb_true_intro. split; [now apply Hv|now apply (IH Hr)].
-Qed.
-
-Theorem val_eqb_eq : forall a b, val_eqb a b = true <-> a = b.
-Proof.
-  induction a using val_ind'; intros b.
-  - destruct b; cbn [val_eqb]; split; intros H0; try discriminate.
-    + apply andb_prop in H0 as [H1 H2]. apply sk_eqb_eq in H1. apply Z.eqb_eq in H2. congruence.
-    + inversion H0. subst. now rewrite sk_eqb_refl, Z.eqb_refl.
-  - destruct b; cbn [val_eqb]; split; intros H0; try discriminate.
-    + apply zlist_eqb_eq in H0. congruence.
-    + inversion H0. subst. now apply zlist_eqb_eq.
-  - destruct b as [| |d'| | |]; try (cbn [val_eqb]; split; intros H0; discriminate).
-    change (val_eqb (VData d) (VData d')) with (dyn_eqb d d').
-    rewrite (dyn_eqb_eq d H d'). split; intros H0; congruence.
-  - destruct b; cbn [val_eqb]; split; intros H0; try discriminate.
-    + apply andb_prop in H0 as [H1 H2]. apply sk_eqb_eq in H1. apply zlist_eqb_eq in H2. congruence.
-    + inversion H0. subst. rewrite sk_eqb_refl. cbn [andb]. now apply zlist_eqb_eq.
-  - destruct b; cbn [val_eqb]; split; intros H0; try discriminate.
-    + apply (list_eqb_eq (list_eqb Z.eqb) zlist_eqb_eq) in H0. congruence.
-    + inversion H0. subst. now apply (list_eqb_eq (list_eqb Z.eqb) zlist_eqb_eq).
-  - destruct b as [| | | | |l']; try (cbn [val_eqb]; split; intros H0; discriminate).
-    assert (Hl : forall l', (fix gol (l l' : list (list (Z * val))) : bool :=
-                match l, l' with
-                | [], [] => true
-                | d :: r, d' :: r' => dyn_eqb d d' && gol r r'
-                | _, _ => false
-                end) l l' = true <-> l = l').
-    { induction H as [|d r Hd Hr IH]; intros l2; destruct l2 as [|d' r']; split; intros H0;
-        try reflexivity; try discriminate.
-      - apply andb_prop in H0 as [H1 H2]. apply (dyn_eqb_eq d Hd) in H1. apply IH in H2. congruence.
-      - inversion H0. subst. apply andb_true_intro. split; [now apply (dyn_eqb_eq d' Hd)|now apply IH]. }
-    change (val_eqb (VSeqData l) (VSeqData l')) with
-      ((fix gol (l l' : list (list (Z * val))) : bool :=
-          match l, l' with
-          | [], [] => true
-          | d :: r, d' :: r' => dyn_eqb d d' && gol r r'
-          | _, _ => false
-          end) l l').
-    rewrite (Hl l'). split; intros H0; congruence.
-Qed.
-
-(* the padding count of a round-tripping S1/S2 sample is exactly the number of bytes behind
-   the position where the reader stops *)
-Theorem padding_is_reader_rest : forall V E t v,
-  is_aggr t = true -> tgood V t = true -> wt t v = true ->
-  exists bs p, encode V E t v = Ok bs /\ decode_end t bs = Some p /\ nth 3 bs 0 = blen bs - 4 - p.
-Proof.
-  intros V E t v Ha Hg Hw.
-  destruct (rt_ty V E t Hg v Hw 0 ltac:(lia)) as [body [E1 D1]].
-  unfold encode. rewrite Ha, E1. cbn [bind].
-  set (n := pad_count (blen ([0; repr_id V E (ty_ext t); 0; 0] ++ body))).
-  eexists. exists (blen body). split; [reflexivity|].
-  cbn [app set_nth3]. unfold decode_end.
-  assert (Hve : (if (repr_id V E (ty_ext t) =? 0) || (repr_id V E (ty_ext t) =? 2) then Some (V1, BE)
-                 else if (repr_id V E (ty_ext t) =? 1) || (repr_id V E (ty_ext t) =? 3) then Some (V1, LE)
-                 else if (repr_id V E (ty_ext t) =? 6) || (repr_id V E (ty_ext t) =? 8) || (repr_id V E (ty_ext t) =? 10)
-                      then Some (V2, BE)
-                 else if (repr_id V E (ty_ext t) =? 7) || (repr_id V E (ty_ext t) =? 9) || (repr_id V E (ty_ext t) =? 11)
-                      then Some (V2, LE)
-                 else None) = Some (V, E)) by (destruct V, E, (ty_ext t); reflexivity).
-  cbv zeta. rewrite Hve.
-  specialize (D1 [] (zeros n) eq_refl). cbn [app] in D1. rewrite D1.
-  split; [reflexivity|]. cbn [nth]. rewrite !blen_cons, blen_app, blen_zeros.
-  - lia.
-  - subst n. apply pad_count_range.
+      set (p2 := c_org c + (q + 2) + Z.of_nat 2).
+      pose proof (Db ltac:(lia) (pre ++ pad ++ int_enc E 2 pid ++ int_enc E 2 L) post (mkC p2 (c_lim c))) as Dv.
+      cbn [c_org c_lim] in Dv. rewrite !Z.add_0_r in Dv.
+      rewrite Dv by (rewrite ?blen_app, ?int_enc_blen; unfold p2, q; lia).
+      cbn [dbind]. f_equal. subst p2 q. change (Z.of_nat 2) with 2. Show. lia.
+    + subst body. rewrite blen_nil in HL. rewrite HL. cbn [Z.gtb Z.compare].
+      f_equal. rewrite blen_nil. unfold q. lia.
 Qed.
